@@ -646,6 +646,9 @@ theorem tr_tga_run {t : Bool} (st : Settings) (hconv : ConvOk .tga st) : Tr t (T
 
 /-! ## never out of fuel: the readers -/
 
+theorem nf_ite {α} {c : Prop} [Decidable c] {a b : M α} (ha : NF a) (hb : NF b) : NF (if c then a else b) := by
+  split <;> assumption
+
 theorem nf_of_se {α} {m : M α} (h : SE IsErr m) : NF m := by
   intro s w hw
   have := h s
@@ -781,6 +784,580 @@ theorem nf_tga_run (st : Settings) : NF (Tga.run st) := by
     dsimp only
     apply nf_bind (nf_recreateImage _ _ _); intro _
     apply nf_bind (nf_tga_apply _ _ _ _ _); intro _
+    exact nf_pure _
+
+
+/-! ## PNM -/
+
+theorem tr_getcChecked {t : Bool} : Tr t getcChecked (fun _ => True) := by
+  unfold getcChecked
+  apply tr_bind (tr_readSome 1); intro got _
+  split
+  · exact tr_pure trivial
+  · exact tr_ioErr
+
+theorem tr_getcUnchecked {t : Bool} : Tr t getcUnchecked (fun _ => True) := by
+  unfold getcUnchecked
+  apply tr_bind (tr_readSome 1); intro got _
+  split <;> exact tr_pure trivial
+
+theorem tr_pnm_skipComment {t : Bool} : ∀ fuel : Nat, Tr t (Pnm.skipComment fuel) (fun _ => True)
+  | 0 => by unfold Pnm.skipComment; exact tr_fuel _
+  | fuel + 1 => by
+    unfold Pnm.skipComment
+    apply tr_bind tr_getcChecked; intro c _
+    split
+    · exact tr_pure trivial
+    · exact tr_pnm_skipComment fuel
+
+theorem tr_pnm_readChar {t : Bool} : Tr t Pnm.readChar (fun _ => True) := by
+  unfold Pnm.readChar
+  apply tr_bind tr_getcChecked; intro c _
+  split
+  · apply tr_bind tr_fuelHere; intro fuel _
+    exact tr_pnm_skipComment fuel
+  · exact tr_pure trivial
+
+theorem tr_pnm_skipWs {t : Bool} : ∀ k : Nat, Tr t (Pnm.skipWs k) (fun _ => True)
+  | 0 => by unfold Pnm.skipWs; exact tr_fuel _
+  | k + 1 => by
+    unfold Pnm.skipWs
+    apply tr_bind tr_pnm_readChar; intro c _
+    split
+    · exact tr_pnm_skipWs k
+    · exact tr_pure trivial
+
+theorem tr_pnm_digitsLoop {t : Bool} : ∀ (k c val : Nat), Pnm.isDigit c = true →
+    Tr t (Pnm.digitsLoop k c val) (fun v => 0 ≤ v ∧ v ≤ 2147483647)
+  | 0, _, _, _ => by unfold Pnm.digitsLoop; exact tr_fuel _
+  | k + 1, c, val, hc => by
+    unfold Pnm.digitsLoop
+    dsimp only
+    have hd : 48 ≤ c ∧ c ≤ 57 := by simpa [Pnm.isDigit] using hc
+    split
+    · exact tr_ioErr
+    · rename_i hle
+      apply tr_bind tr_pnm_readChar; intro c' _
+      split
+      · rename_i hc'
+        exact tr_pnm_digitsLoop k c' _ hc'
+      · apply tr_pure
+        constructor
+        · exact Int.natCast_nonneg _
+        · have : val * 10 + (c - 48) ≤ 2147483647 := by omega
+          simp only [Int.ofNat_eq_natCast]
+          exact_mod_cast this
+
+theorem tr_pnm_readInt {t : Bool} : Tr t Pnm.readInt (fun v => 0 ≤ v ∧ v ≤ 2147483647) := by
+  unfold Pnm.readInt
+  apply tr_bind tr_fuelHere; intro f1 _
+  apply tr_bind (tr_pnm_skipWs f1); intro c _
+  split
+  · exact tr_ioErr
+  · rename_i hc
+    apply tr_bind tr_fuelHere; intro f2 _
+    exact tr_pnm_digitsLoop f2 c 0 (by simpa using hc)
+
+/-- what `read_header` guarantees -/
+def PnmHdr (i : Pnm.Info) : Prop :=
+  1 ≤ i.width ∧ i.width ≤ 2147483647 ∧ 1 ≤ i.height ∧ 1 ≤ i.type ∧ i.type ≤ 6
+
+theorem tr_pnm_readHeader {t : Bool} : Tr t Pnm.readHeader PnmHdr := by
+  unfold Pnm.readHeader
+  apply tr_bind tr_pnm_readChar; intro p _
+  split
+  · exact tr_ioErr
+  · apply tr_bind tr_pnm_readChar; intro ty _
+    split
+    · exact tr_ioErr
+    · rename_i hty
+      dsimp only
+      apply tr_bind tr_pnm_readInt; intro w hw
+      apply tr_bind tr_pnm_readInt; intro h hh
+      have hT : 1 ≤ Int.ofNat (ty - 48) ∧ Int.ofNat (ty - 48) ≤ 6 := by
+        simp only [Int.ofNat_eq_natCast]; omega
+      split
+      · exact tr_ioErr
+      · split
+        · exact tr_pure (by unfold PnmHdr; dsimp only; omega)
+        · apply tr_bind tr_pnm_readInt; intro m _
+          split
+          · exact tr_ioErr
+          · exact tr_pure (by unfold PnmHdr; dsimp only; omega)
+
+
+theorem tr_pnm_token {t : Bool} (site : String) : ∀ (fuel : Nat) (acc : List Nat), Tr t (Pnm.token site fuel acc) (fun _ => True)
+  | 0, _ => by unfold Pnm.token; exact tr_fuel _
+  | fuel + 1, acc => by
+    unfold Pnm.token
+    apply tr_bind tr_getcUnchecked; intro c _
+    split
+    · repeat' (first | exact tr_ioErr | exact tr_pure trivial | exact tr_pnm_token site fuel _ | split)
+    · split <;> exact tr_pure trivial
+
+theorem tr_pnm_textSamples {t : Bool} (site : String) (maxv : Int) (process : Bool) :
+    ∀ (n x : Nat) (row : List Nat), Tr t (Pnm.textSamples site maxv process n x row) (fun r => r.length = row.length)
+  | 0, _, row => by unfold Pnm.textSamples; exact tr_pure rfl
+  | n + 1, x, row => by
+    unfold Pnm.textSamples
+    apply tr_bind tr_fuelHere; intro fuel _
+    apply tr_bind (tr_pnm_token site fuel []); intro tk _
+    split
+    · exact tr_ioErr
+    · split
+      · exact tr_mono (tr_pnm_textSamples site maxv process n _ _) (fun r hr => by simpa using hr)
+      · exact tr_pnm_textSamples site maxv process n _ _
+
+/-- bytes per destination pixel of the gray conversions -/
+def grayCh (dst : Dst) : Nat := if dst = .rgb8 then 3 else 1
+
+theorem gray8To_length (dst : Dst) (xs : List Nat) : (Pnm.gray8To dst xs).length = xs.length * grayCh dst := by
+  unfold Pnm.gray8To grayCh
+  cases dst <;> simp [List.length_flatMap]
+  induction xs with
+  | nil => rfl
+  | cons x xs ih => simp [ih]; omega
+
+theorem gray1To_length (dst : Dst) (xs : List Nat) : (Pnm.gray1To dst xs).length = xs.length * grayCh dst := by
+  unfold Pnm.gray1To grayCh
+  cases dst <;> simp [List.length_flatMap]
+  induction xs with
+  | nil => rfl
+  | cons x xs ih => simp [ih]; omega
+
+theorem grayCh_eq_nch {dst : Dst} (h : dst = .gray8 ∨ dst = .rgb8 ∨ dst = .gray1) : grayCh dst = dst.nch := by
+  rcases h with h | h | h <;> subst h <;> rfl
+
+/-- `len ≤ dimx` gray samples converted to the destination fit `vw` destination pixels -/
+theorem gray_fits {dst : Dst} (hd : dst = .gray8 ∨ dst = .rgb8 ∨ dst = .gray1) {len : Nat} {dimx vw : Int}
+    (hl : (len : Int) ≤ dimx) (hvw : dimx ≤ vw) : ((len * grayCh dst : Nat) : Int) ≤ vw * dst.nch := by
+  rw [grayCh_eq_nch hd]
+  push_cast
+  have : (0 : Int) ≤ dst.nch := Int.natCast_nonneg _
+  nlinarith
+
+
+theorem tr_pnm_textRows {t : Bool} (i : Pnm.Info) (st : Settings) (dimx : Int) (sl srcCh : Nat) (site : String) {vw vh : Int}
+    (hsrc : srcCh = 1 ∨ srcCh = 3)
+    (hd1 : srcCh = 1 → st.dst = .gray8 ∨ st.dst = .rgb8) (hd3 : srcCh = 3 → st.dst = .rgb8)
+    (hx0 : 0 ≤ st.x0) (hdx : 0 ≤ dimx) (hxsl : (st.x0 + dimx) * srcCh ≤ sl) (hvw : dimx ≤ vw) :
+    ∀ (n : Nat) (process : Bool) (y : Int) (row : List Nat) (d : Dest), row.length = sl → Shape d vw vh st.dst.nch →
+      (process = true → 0 ≤ y ∧ y + n ≤ vh) →
+      Tr t (Pnm.textRows i st dimx sl srcCh site n process y row d) (fun d' => Shape d' vw vh st.dst.nch)
+  | 0, _, _, _, d, _, hd, _ => by unfold Pnm.textRows; exact tr_pure hd
+  | n + 1, process, y, row, d, hrow, hd, hy => by
+    unfold Pnm.textRows
+    apply tr_bind (tr_pnm_textSamples site i.maxValue process sl 0 row); intro row' hrow'
+    have hlen : row'.length = sl := by omega
+    split
+    · rename_i hp
+      have hy' := hy hp
+      apply tr_bind (tr_sliceRow _ row' srcCh st.x0 dimx hx0 (by rw [hlen]; exact_mod_cast hxsl)); intro px hpx
+      have hfit : ((if srcCh == 1 then Pnm.gray8To st.dst px else px).length : Int) ≤ vw * st.dst.nch := by
+        have hn : (0 : Int) ≤ st.dst.nch := Int.natCast_nonneg _
+        rcases hsrc with h1 | h3
+        · subst h1
+          simp only [beq_self_eq_true, if_true]
+          rw [gray8To_length]
+          have hdd := hd1 rfl
+          have hl : (px.length : Int) ≤ dimx := by
+            rcases hpx with h | ⟨_, h⟩
+            · simpa using h
+            · subst h; simpa using hdx
+          exact gray_fits (by rcases hdd with h | h <;> simp [h]) hl hvw
+        · subst h3
+          have hdd := hd3 rfl
+          simp only [show ((3 : Nat) == 1) = false from rfl]
+          rw [hdd]
+          show (px.length : Int) ≤ vw * 3
+          rcases hpx with h | ⟨_, h⟩
+          · push_cast at h; omega
+          · subst h; simp; omega
+      apply tr_bind (tr_setRow _ d y _ hd hy'.1 (by push_cast at hy'; omega) hfit); intro d' hd'
+      exact tr_pnm_textRows i st dimx sl srcCh site hsrc hd1 hd3 hx0 hdx hxsl hvw n process (y + 1) row' d' hlen hd'
+        (fun _ => ⟨by omega, by push_cast at hy' ⊢; omega⟩)
+    · rename_i hp
+      exact tr_pnm_textRows i st dimx sl srcCh site hsrc hd1 hd3 hx0 hdx hxsl hvw n process (y + 1) row' d hlen hd
+        (fun h => absurd h hp)
+
+theorem tr_pnm_readTextData {t : Bool} (i : Pnm.Info) (st : Settings) (dimx : Int) (srcCh : Nat) (d : Dest) {vw vh : Int}
+    (hw : 1 ≤ i.width) (hsrc : srcCh = 1 ∨ srcCh = 3)
+    (hd1 : srcCh = 1 → st.dst = .gray8 ∨ st.dst = .rgb8) (hd3 : srcCh = 3 → st.dst = .rgb8)
+    (hx0 : 0 ≤ st.x0) (hdx : 0 ≤ dimx) (hxw : st.x0 + dimx ≤ i.width) (hvw : dimx ≤ vw) (hvh0 : 0 ≤ vh)
+    (hd : Shape d vw vh st.dst.nch) :
+    Tr t (Pnm.readTextData i st dimx (i.width * srcCh) srcCh d) (fun d' => Shape d' vw vh st.dst.nch) := by
+  unfold Pnm.readTextData
+  apply tr_bind (tr_alloc _); intro _ _
+  dsimp only
+  have hsl : 1 ≤ i.width * srcCh := by rcases hsrc with h | h <;> subst h <;> push_cast <;> omega
+  rw [if_neg (by intro hc; have : i.width * ↑srcCh = 0 := by simpa using hc.1
+                 omega)]
+  have hlen : (List.replicate (i.width * ↑srcCh).toNat 0).length = (i.width * ↑srcCh).toNat := List.length_replicate
+  have hxsl : (st.x0 + dimx) * srcCh ≤ ((i.width * ↑srcCh).toNat : Int) := by
+    rw [Int.toNat_of_nonneg (by omega)]
+    have : (0 : Int) ≤ srcCh := Int.natCast_nonneg _
+    nlinarith
+  apply tr_bind (tr_pnm_textRows i st dimx _ srcCh _ hsrc hd1 hd3 hx0 hdx hxsl hvw _ false 0 _ d hlen hd (fun h => by cases h)); intro d' hd'
+  have hvh : d.vh = vh := hd.2.1
+  exact tr_pnm_textRows i st dimx _ srcCh _ hsrc hd1 hd3 hx0 hdx hxsl hvw _ true 0 _ d' hlen hd'
+    (fun _ => ⟨le_refl _, by
+      rw [hvh]
+      by_cases hp : vh > 0
+      · rw [if_pos hp, Int.toNat_of_nonneg (by omega)]; omega
+      · rw [if_neg hp]; push_cast; omega⟩)
+
+
+theorem manipBits_length (row : List Nat) : (Pnm.manipBits row).length = row.length := by
+  unfold Pnm.manipBits; simp
+
+theorem tr_pnm_skipBinRows {t : Bool} (site : String) (sl : Nat) :
+    ∀ (n : Nat) (buf : List Nat), buf.length = sl → Tr t (Pnm.skipBinRows site sl n buf) (fun b => b.length = sl)
+  | 0, buf, hb => by unfold Pnm.skipBinRows; exact tr_pure hb
+  | n + 1, buf, hb => by
+    unfold Pnm.skipBinRows
+    apply tr_bind (tr_readInto site buf sl (by omega)); intro buf' hb'
+    exact tr_pnm_skipBinRows site sl n buf' (by omega)
+
+/-- destination types the PNM pixel paths can reach (from `is_allowed` or the modelled conversion target) -/
+structure PnmDstOk (i : Pnm.Info) (st : Settings) : Prop where
+  gray : (i.type = 1 ∨ i.type = 2 ∨ i.type = 5) → st.dst = .gray8 ∨ st.dst = .rgb8
+  rgb : (i.type = 3 ∨ i.type = 6) → st.dst = .rgb8
+  bits : i.type = 4 → st.dst = .gray1 ∨ st.dst = .rgb8
+
+theorem tr_pnm_binRows {t : Bool} (i : Pnm.Info) (st : Settings) (dimx : Int) (sl : Nat) (site : String) {vw vh : Int}
+    (hty : i.type = 4 ∨ i.type = 5 ∨ i.type = 6) (hdst : PnmDstOk i st)
+    (hx0 : 0 ≤ st.x0) (hdx : 0 ≤ dimx) (hvw : dimx ≤ vw)
+    (h4 : i.type = 4 → st.x0 + dimx ≤ (sl : Int) * 8) (h56 : i.type ≠ 4 → st.x0 + dimx ≤ (sl : Int)) :
+    ∀ (n : Nat) (y : Int) (buf : List Nat) (d : Dest), buf.length = sl → Shape d vw vh st.dst.nch → 0 ≤ y → y + n ≤ vh →
+      Tr t (Pnm.binRows i st dimx sl site n y buf d) (fun d' => Shape d' vw vh st.dst.nch)
+  | 0, _, _, d, _, hd, _, _ => by unfold Pnm.binRows; exact tr_pure hd
+  | n + 1, y, buf, d, hb, hd, hy0, hy1 => by
+    unfold Pnm.binRows
+    apply tr_bind (tr_readInto site buf sl (by omega)); intro buf' hb'
+    have hlen : buf'.length = sl := by omega
+    have hrec : ∀ (b : List Nat) (d' : Dest), b.length = sl → Shape d' vw vh st.dst.nch →
+        Tr t (Pnm.binRows i st dimx sl site n (y + 1) b d') (fun d' => Shape d' vw vh st.dst.nch) :=
+      fun b d' hb2 hd2 => tr_pnm_binRows i st dimx sl site hty hdst hx0 hdx hvw h4 h56 n (y + 1) b d' hb2 hd2 (by omega)
+        (by push_cast at hy1 ⊢; omega)
+    have hy1' : y < vh := by push_cast at hy1; omega
+    split
+    · rename_i h4t
+      have ht4 : i.type = 4 := by simpa using h4t
+      dsimp only
+      split
+      · exact hrec _ d (by rw [manipBits_length]; exact hlen) hd
+      · split
+        · rename_i hc
+          have := h4 ht4
+          simp only [Int.ofNat_eq_natCast] at hc
+          omega
+        · have hfit : ((Pnm.gray1To st.dst (List.take dimx.toNat (List.drop st.x0.toNat (Pnm.bitsOf (Pnm.manipBits buf'))))).length : Int)
+              ≤ vw * st.dst.nch := by
+            rw [gray1To_length]
+            have hl : ((List.take dimx.toNat (List.drop st.x0.toNat (Pnm.bitsOf (Pnm.manipBits buf')))).length : Int) ≤ dimx := by
+              have : (List.take dimx.toNat (List.drop st.x0.toNat (Pnm.bitsOf (Pnm.manipBits buf')))).length ≤ dimx.toNat :=
+                List.length_take_le _ _
+              have h2 : ((dimx.toNat : Nat) : Int) = dimx := Int.toNat_of_nonneg hdx
+              omega
+            exact gray_fits (by rcases hdst.bits ht4 with h | h <;> simp [h]) hl hvw
+          apply tr_bind (tr_setRow site d y _ hd hy0 hy1' hfit); intro d' hd'
+          exact hrec _ d' (by rw [manipBits_length]; exact hlen) hd'
+    · rename_i h4t
+      have ht4 : i.type ≠ 4 := by simpa using h4t
+      dsimp only
+      split
+      · exact hrec _ d hlen hd
+      · split
+        · rename_i hc
+          have := h56 ht4
+          simp only [Int.ofNat_eq_natCast] at hc
+          omega
+        · by_cases h6 : i.type = 6
+          · -- rgb8 source, rgb8 destination
+            have hd6 := hdst.rgb (Or.inr h6)
+            simp only [h6, beq_self_eq_true, if_true, show ((3 : Nat) == 1) = false from rfl]
+            have hfit : ((List.take (dimx.toNat * 3) (List.drop (st.x0.toNat * 3) (buf' ++ List.replicate (sl * 3 - sl) 0))).length : Int)
+                ≤ vw * st.dst.nch := by
+              have : (List.take (dimx.toNat * 3) (List.drop (st.x0.toNat * 3) (buf' ++ List.replicate (sl * 3 - sl) 0))).length ≤ dimx.toNat * 3 :=
+                List.length_take_le _ _
+              have h2 : ((dimx.toNat : Nat) : Int) = dimx := Int.toNat_of_nonneg hdx
+              rw [hd6]
+              show _ ≤ vw * 3
+              omega
+            apply tr_bind (tr_setRow site d y _ hd hy0 hy1' hfit); intro d' hd'
+            exact hrec _ d' hlen hd'
+          · have h5 : i.type = 5 := by omega
+            have hd5 := hdst.gray (Or.inr (Or.inr h5))
+            simp only [h5, show ((5 : Int) == 6) = false from rfl, beq_self_eq_true, if_true, Bool.false_eq_true, if_false]
+            have hfit : ((Pnm.gray8To st.dst (List.take (dimx.toNat * 1) (List.drop (st.x0.toNat * 1) (buf' ++ List.replicate (sl * 1 - sl) 0)))).length : Int)
+                ≤ vw * st.dst.nch := by
+              rw [gray8To_length]
+              have hl : ((List.take (dimx.toNat * 1) (List.drop (st.x0.toNat * 1) (buf' ++ List.replicate (sl * 1 - sl) 0))).length : Int) ≤ dimx := by
+                have : (List.take (dimx.toNat * 1) (List.drop (st.x0.toNat * 1) (buf' ++ List.replicate (sl * 1 - sl) 0))).length ≤ dimx.toNat * 1 :=
+                  List.length_take_le _ _
+                have h2 : ((dimx.toNat : Nat) : Int) = dimx := Int.toNat_of_nonneg hdx
+                omega
+              exact gray_fits (by rcases hd5 with h | h <;> simp [h]) hl hvw
+            apply tr_bind (tr_setRow site d y _ hd hy0 hy1' hfit); intro d' hd'
+            exact hrec _ d' hlen hd'
+
+
+theorem tr_pnm_readBinData {t : Bool} (i : Pnm.Info) (st : Settings) (dimx sl : Int) (d : Dest) {vw vh : Int}
+    (hty : i.type = 4 ∨ i.type = 5 ∨ i.type = 6) (hdst : PnmDstOk i st) (hsl : 1 ≤ sl)
+    (hx0 : 0 ≤ st.x0) (hdx : 0 ≤ dimx) (hvw : dimx ≤ vw) (hvh0 : 0 ≤ vh)
+    (h4 : i.type = 4 → st.x0 + dimx ≤ sl * 8) (h56 : i.type ≠ 4 → st.x0 + dimx ≤ sl)
+    (hd : Shape d vw vh st.dst.nch) :
+    Tr t (Pnm.readBinData i st dimx sl d) (fun d' => Shape d' vw vh st.dst.nch) := by
+  unfold Pnm.readBinData
+  dsimp only
+  apply tr_bind (tr_alloc _); intro _ _
+  have hne : ¬ ((sl == 0) = true) := by simp; omega
+  rw [if_neg (fun hc => hne hc.1), if_neg (fun hc => hne hc.1)]
+  have hslc : ((sl.toNat : Nat) : Int) = sl := Int.toNat_of_nonneg (by omega)
+  apply tr_bind (tr_pnm_skipBinRows _ sl.toNat _ _ List.length_replicate); intro buf hbuf
+  have hvh : d.vh = vh := hd.2.1
+  refine tr_pnm_binRows i st dimx sl.toNat _ hty hdst hx0 hdx hvw (by rw [hslc]; exact h4) (by rw [hslc]; exact h56) _ 0 buf d hbuf hd (le_refl _) ?_
+  rw [hvh]
+  by_cases hp : vh > 0
+  · rw [if_pos hp, Int.toNat_of_nonneg (by omega)]; omega
+  · rw [if_neg hp]; push_cast; omega
+
+theorem wrapU32_small {x : Int} (h0 : 0 ≤ x) (h1 : x < 4294967296) : wrapU 32 x = x := by
+  unfold wrapU
+  have : ((2 : Int) ^ 32) = 4294967296 := by norm_num
+  rw [this]
+  omega
+
+theorem pnmDstOk_of_allowed {i : Pnm.Info} {st : Settings} (hi : PnmHdr i) (hal : Pnm.isAllowed i st = true)
+    (hc : ConvOk .pnm st) : PnmDstOk i st := by
+  unfold Pnm.isAllowed at hal
+  by_cases he : st.entry = .conv
+  · have hd : st.dst = .rgb8 := hc he
+    exact ⟨fun _ => Or.inr hd, fun _ => hd, fun _ => Or.inr hd⟩
+  · have he' : (st.entry == Entry.conv) = false := by simpa using he
+    rw [he'] at hal
+    simp only [Bool.false_eq_true, if_false] at hal
+    obtain ⟨_, _, _, ht1, ht6⟩ := hi
+    cases hdst : st.dst <;> rw [hdst] at hal <;> simp at hal <;>
+      refine ⟨fun h => ?_, fun h => ?_, fun h => ?_⟩ <;> first | (simp [hdst]; done) | (exfalso; omega)
+
+
+theorem tr_pnm_apply {t : Bool} (i : Pnm.Info) (st : Settings) (dimx : Int) (d : Dest) {vw vh : Int}
+    (hi : PnmHdr i) (hconv : ConvOk .pnm st)
+    (hx0 : 0 ≤ st.x0) (hdx : 0 ≤ dimx) (hxw : st.x0 + dimx ≤ i.width) (hvw : dimx ≤ vw) (hvh0 : 0 ≤ vh)
+    (hd : Shape d vw vh st.dst.nch) :
+    Tr t (Pnm.apply i st dimx d) (fun d' => Shape d' vw vh st.dst.nch) := by
+  unfold Pnm.apply
+  obtain ⟨hw1, hw2, hh1, ht1, ht6⟩ := hi
+  split
+  · exact tr_ioErr
+  · rename_i hal
+    have hdst := pnmDstOk_of_allowed ⟨hw1, hw2, hh1, ht1, ht6⟩ (by simpa using hal) hconv
+    split
+    · rename_i h12
+      have := tr_pnm_readTextData (t := t) i st dimx 1 d hw1 (Or.inl rfl)
+        (fun _ => hdst.gray (by rcases h12 with h | h <;> simp at h <;> omega)) (fun h => by cases h) hx0 hdx hxw hvw hvh0 hd
+      simpa using this
+    · split
+      · rename_i h3
+        exact tr_pnm_readTextData i st dimx 3 d hw1 (Or.inr rfl) (fun h => by cases h)
+          (fun _ => hdst.rgb (Or.inl (by simpa using h3))) hx0 hdx hxw hvw hvh0 hd
+      · split
+        · rename_i h4
+          have ht4 : i.type = 4 := by simpa using h4
+          have hwr : wrapU 32 (i.width + 7) = i.width + 7 := wrapU32_small (by omega) (by omega)
+          rw [hwr]
+          exact tr_pnm_readBinData i st dimx _ d (Or.inl ht4) hdst (by omega) hx0 hdx hvw hvh0 (fun _ => by omega)
+            (fun h => absurd ht4 h) hd
+        · split
+          · rename_i h5
+            have ht5 : i.type = 5 := by simpa using h5
+            exact tr_pnm_readBinData i st dimx _ d (Or.inr (Or.inl ht5)) hdst hw1 hx0 hdx hvw hvh0 (fun h => by omega)
+              (fun _ => hxw) hd
+          · rename_i h12 h3 h4 h5
+            have ht6' : i.type = 6 := by
+              simp at h12 h3 h4 h5; omega
+            exact tr_pnm_readBinData i st dimx _ d (Or.inr (Or.inr ht6')) hdst (by omega) hx0 hdx hvw hvh0 (fun h => by omega)
+              (fun _ => by omega) hd
+
+theorem tr_pnm_scanRows {t : Bool} (sl : Nat) (rowFn : List Nat → M (List Nat))
+    (hrow : ∀ b : List Nat, b.length = sl → Tr t (rowFn b) (fun b' => b'.length = sl)) :
+    ∀ (n : Nat) (buf : List Nat) (acc : List (List Nat)), buf.length = sl → Tr t (Pnm.scanRows rowFn n buf acc) (fun _ => True)
+  | 0, _, _, _ => by unfold Pnm.scanRows; exact tr_pure trivial
+  | n + 1, buf, acc, hb => by
+    unfold Pnm.scanRows
+    apply tr_bind (hrow buf hb); intro buf' hb'
+    exact tr_pnm_scanRows sl rowFn hrow n buf' _ hb'
+
+theorem tr_pnm_scanWith {t : Bool} (i : Pnm.Info) (sl : Int) (hsl : 1 ≤ sl) : Tr t (Pnm.scanWith i sl) (fun _ => True) := by
+  unfold Pnm.scanWith
+  split
+  · exact tr_stop_err _
+  · apply tr_bind (tr_alloc _); intro _ _
+    rw [if_neg (by simp; omega)]
+    dsimp only
+    apply tr_bind (tr_pnm_scanRows sl.toNat _ (fun b hb => by
+        split
+        · unfold Pnm.scanTextRow
+          exact tr_mono (tr_pnm_textSamples _ _ _ _ _ b) (fun r hr => by omega)
+        · apply tr_bind (tr_readInto _ b _ (by omega)); intro row hrow
+          apply tr_pure
+          split
+          · rw [manipBits_length]; omega
+          · omega) _ _ _ List.length_replicate); intro _ _
+    exact tr_pure trivial
+
+theorem tr_pnm_scan {t : Bool} (i : Pnm.Info) (hi : PnmHdr i) : Tr t (Pnm.scan i) (fun _ => True) := by
+  unfold Pnm.scan
+  obtain ⟨hw1, hw2, hh1, ht1, ht6⟩ := hi
+  apply tr_pnm_scanWith
+  unfold Pnm.scanLen
+  rw [wrapU32_small (by omega) (by omega)]
+  split
+  · omega
+  · split <;> omega
+
+theorem tr_pnm_run {t : Bool} (st : Settings) (hconv : ConvOk .pnm st) : Tr t (Pnm.run st) (fun _ => True) := by
+  unfold Pnm.run
+  apply tr_bind tr_pnm_readHeader; intro i hi
+  dsimp only
+  apply tr_bind (tr_checkSettings _ _ _ _ _); intro _ hs
+  obtain ⟨hx0, hy0, hdx, hdy, hxw, hyh⟩ := hs
+  have hdx1 := dim_pos hi.1 (by simpa using hdx)
+  have hdy1 := dim_pos hi.2.2.1 (by simpa using hdy)
+  simp only [beq_iff_eq] at hdx1 hdy1 hdx hdy hxw hyh ⊢
+  cases he : st.entry with
+  | info => exact tr_pure trivial
+  | scan => exact tr_pnm_scan i hi
+  | view =>
+    dsimp only
+    apply tr_bind (tr_checkImageSize _ _ _ _ _); intro _ hv
+    apply tr_bind (tr_pnm_apply i st _ _ hi hconv hx0 hdx hxw (hv.1 (by omega)) (by have := hv.2 (by omega); omega) (mk'_shape _ _ _ _)); intro _ _
+    exact tr_pure trivial
+  | image =>
+    dsimp only
+    apply tr_bind (tr_recreateImage st _ _ (by omega) (by omega)); intro d hd
+    apply tr_bind (tr_pnm_apply i st _ _ hi hconv hx0 hdx hxw (le_refl _) (by omega) hd); intro _ _
+    exact tr_pure trivial
+  | conv =>
+    dsimp only
+    apply tr_bind (tr_recreateImage st _ _ (by omega) (by omega)); intro d hd
+    apply tr_bind (tr_pnm_apply i st _ _ hi hconv hx0 hdx hxw (le_refl _) (by omega) hd); intro _ _
+    exact tr_pure trivial
+
+
+/-! ### PNM never runs out of fuel -/
+
+theorem nf_pnm_textRows (i : Pnm.Info) (st : Settings) (dimx : Int) (sl srcCh : Nat) (site : String) :
+    ∀ (n : Nat) (process : Bool) (y : Int) (row : List Nat) (d : Dest), NF (Pnm.textRows i st dimx sl srcCh site n process y row d)
+  | 0, _, _, _, _ => by unfold Pnm.textRows; exact nf_pure _
+  | n + 1, process, y, row, d => by
+    unfold Pnm.textRows
+    apply nf_bind (nf_of_nh (nh_pnm_textSamples _ _ _ _ _ _)); intro row'
+    split
+    · apply nf_bind (nf_sliceRow _ _ _ _ _); intro px
+      dsimp only
+      apply nf_bind (nf_setRow _ _ _ _); intro d'
+      exact nf_pnm_textRows i st dimx sl srcCh site n _ _ _ _
+    · exact nf_pnm_textRows i st dimx sl srcCh site n _ _ _ _
+
+theorem nf_pnm_readTextData (i : Pnm.Info) (st : Settings) (dimx sl : Int) (srcCh : Nat) (d : Dest) :
+    NF (Pnm.readTextData i st dimx sl srcCh d) := by
+  unfold Pnm.readTextData
+  apply nf_bind (nf_alloc _); intro _
+  dsimp only
+  apply nf_ite
+  · exact nf_ubAt _ _
+  · apply nf_bind (nf_pnm_textRows _ _ _ _ _ _ _ _ _ _ _); intro _
+    exact nf_pnm_textRows _ _ _ _ _ _ _ _ _ _ _
+
+theorem nf_pnm_skipBinRows (site : String) (sl : Nat) : ∀ (n : Nat) (buf : List Nat), NF (Pnm.skipBinRows site sl n buf)
+  | 0, _ => by unfold Pnm.skipBinRows; exact nf_pure _
+  | n + 1, buf => by
+    unfold Pnm.skipBinRows
+    apply nf_bind (nf_readInto _ _ _); intro _
+    exact nf_pnm_skipBinRows site sl n _
+
+theorem nf_pnm_binRows (i : Pnm.Info) (st : Settings) (dimx : Int) (sl : Nat) (site : String) :
+    ∀ (n : Nat) (y : Int) (buf : List Nat) (d : Dest), NF (Pnm.binRows i st dimx sl site n y buf d)
+  | 0, _, _, _ => by unfold Pnm.binRows; exact nf_pure _
+  | n + 1, y, buf, d => by
+    unfold Pnm.binRows
+    apply nf_bind (nf_readInto _ _ _); intro buf'
+    have ih := nf_pnm_binRows i st dimx sl site n
+    split
+    · dsimp only
+      split
+      · exact ih _ _ _
+      · split
+        · exact nf_ubAt _ _
+        · apply nf_bind (nf_setRow _ _ _ _); intro _; exact ih _ _ _
+    · dsimp only
+      split
+      · exact ih _ _ _
+      · split
+        · exact nf_ubAt _ _
+        · apply nf_bind (nf_setRow _ _ _ _); intro _; exact ih _ _ _
+
+theorem nf_pnm_readBinData (i : Pnm.Info) (st : Settings) (dimx sl : Int) (d : Dest) : NF (Pnm.readBinData i st dimx sl d) := by
+  unfold Pnm.readBinData
+  dsimp only
+  apply nf_bind (nf_alloc _); intro _
+  apply nf_ite
+  · exact nf_ubAt _ _
+  · apply nf_ite
+    · exact nf_ubAt _ _
+    · apply nf_bind (nf_pnm_skipBinRows _ _ _ _); intro _
+      exact nf_pnm_binRows _ _ _ _ _ _ _ _ _
+
+theorem nf_pnm_apply (i : Pnm.Info) (st : Settings) (dimx : Int) (d : Dest) : NF (Pnm.apply i st dimx d) := by
+  unfold Pnm.apply
+  repeat' (first | exact nf_ioErr | exact nf_pnm_readTextData _ _ _ _ _ _ | exact nf_pnm_readBinData _ _ _ _ _ | split)
+
+theorem nf_pnm_scanRows (rowFn : List Nat → M (List Nat)) (h : ∀ b, NF (rowFn b)) :
+    ∀ (n : Nat) (buf : List Nat) (acc : List (List Nat)), NF (Pnm.scanRows rowFn n buf acc)
+  | 0, _, _ => by unfold Pnm.scanRows; exact nf_pure _
+  | n + 1, buf, acc => by
+    unfold Pnm.scanRows
+    apply nf_bind (h buf); intro _
+    exact nf_pnm_scanRows rowFn h n _ _
+
+theorem nf_pnm_scan (i : Pnm.Info) : NF (Pnm.scan i) := by
+  unfold Pnm.scan Pnm.scanWith
+  split
+  · exact nf_stop _ (by intro w; simp)
+  · apply nf_bind (nf_alloc _); intro _
+    split
+    · exact nf_ubAt _ _
+    · dsimp only
+      apply nf_bind (nf_pnm_scanRows _ (fun b => by
+          split
+          · unfold Pnm.scanTextRow; exact nf_of_nh (nh_pnm_textSamples _ _ _ _ _ _)
+          · apply nf_bind (nf_readInto _ _ _); intro _; exact nf_pure _) _ _ _); intro _
+      exact nf_pure _
+
+theorem nf_pnm_run (st : Settings) : NF (Pnm.run st) := by
+  unfold Pnm.run
+  apply nf_bind (nf_of_nh nh_pnm_readHeader); intro i
+  dsimp only
+  apply nf_bind (nf_checkSettings _ _ _ _ _); intro _
+  cases st.entry with
+  | info => exact nf_pure _
+  | scan => exact nf_pnm_scan i
+  | view =>
+    dsimp only
+    apply nf_bind (nf_checkImageSize _ _ _ _ _); intro _
+    apply nf_bind (nf_pnm_apply _ _ _ _); intro _
+    exact nf_pure _
+  | image =>
+    dsimp only
+    apply nf_bind (nf_recreateImage _ _ _); intro _
+    apply nf_bind (nf_pnm_apply _ _ _ _); intro _
+    exact nf_pure _
+  | conv =>
+    dsimp only
+    apply nf_bind (nf_recreateImage _ _ _); intro _
+    apply nf_bind (nf_pnm_apply _ _ _ _); intro _
     exact nf_pure _
 
 end GilVerif.Lemmas.C11
